@@ -919,7 +919,8 @@ async fn record_one(imp: &Impl, run: usize, seed: u64, trace: &mut TraceWriter, 
             }
             info.wf = cls == "Resigned";
             forged_n += 1;
-            info.key = format!("{a}|{l}|{s}|{cls}:{forged_n}");
+            // a re-signed copy is deterministic (same key, same fields => same bytes and hash): one id
+            info.key = if cls == "Resigned" { format!("{a}|{l}|{s}|Resigned:{param}") } else { format!("{a}|{l}|{s}|{cls}:{forged_n}") };
             let op = world.concretise(cls, &param, &base, rng.next_u64());
             world.register(&op, info.clone());
             items.push_back(Planned { op, info, cls: cls.to_string() });
